@@ -4,6 +4,8 @@ import ClairModel.Model.Pep440
 import ClairModel.Model.Gem
 import ClairModel.Model.Maven
 import ClairModel.Model.RhcTag
+import ClairModel.Model.Semver
+import ClairModel.Model.OsvRange
 
 namespace Driver.C12
 open ClairModel ClairModel.Order
@@ -25,6 +27,28 @@ def gver (k v : String) : Option Version.Version := do
 
 def pepShow (v : Pep440.Ver) : String :=
   s!"ok {v.epoch} {showInts v.release} {if v.label.isEmpty then "-" else String.ofList v.label} {v.preN} {v.post} {v.dev} | {showInts (Pep440.project v).v} | {hexOf (Pep440.toStr v)}"
+
+def svShow (v : Semver.SV) : String :=
+  s!"ok {v.major} {v.minor} {v.patch} {hexOf v.pre} {hexOf v.build}"
+
+/-- One event: `e`, or `+`-joined fields `i:<hex>`, `f:<hex>`, `l:<hex>`, `m:<hex>`. -/
+def osvEvent (w : String) : Option OsvRange.Event :=
+  if w == "e" then some {} else
+  (w.splitOn "+").foldlM (fun (e : OsvRange.Event) fld =>
+    match fld.splitOn ":" with
+    | ["i", h] => (str h).map fun t => { e with introduced := t }
+    | ["f", h] => (str h).map fun t => { e with fixed := t }
+    | ["l", h] => (str h).map fun t => { e with lastAffected := t }
+    | ["m", h] => (str h).map fun t => { e with limit := t }
+    | _ => none) {}
+
+def osvEvents (w : String) : Option (List OsvRange.Event) :=
+  if w == "none" then some [] else (w.splitOn ";").mapM osvEvent
+
+def osvShow (cells : List OsvRange.Cell) (removed : Nat) : String :=
+  cells.foldl (fun acc c =>
+    acc ++ s!" | {hexOf c.lower.kind} {showInts c.lower.v} {hexOf c.upper.kind} {showInts c.upper.v} {hexOf c.fixedIn}")
+    s!"removed={removed}"
 
 def answer (l : String) : String :=
   match Driver.words l with
@@ -106,6 +130,43 @@ def answer (l : String) : String :=
     | some s => match RhcTag.parse s with
       | none => "err"
       | some t => if RhcTag.plain true t then "v" else if RhcTag.plain false t then "plain" else "no"
+  | ["semparse", s] =>
+    match str s with
+    | none => "bad-op"
+    | some s => match Semver.parse s with
+      | none => "err"
+      | some v => s!"{svShow v} | {hexOf (Semver.project v).kind} {showInts (Semver.project v).v}"
+  | ["seminc", s] =>
+    match str s with
+    | none => "bad-op"
+    | some s => match Semver.parse s with
+      | none => "err"
+      | some v => s!"{svShow (Semver.incPatch v)} | {showInts (Semver.project (Semver.incPatch v)).v}"
+  | ["semcmp", s, t] =>
+    match str s, str t with
+    | some s, some t => match Semver.parse s, Semver.parse t with
+      | some a, some b => ord (Semver.cmp a b)
+      | _, _ => "err"
+    | _, _ => "bad-op"
+  | ["gobin", s] =>
+    match str s with
+    | none => "bad-op"
+    | some s => match Semver.gobinParse s with
+      | none => "err"
+      | some v => s!"{hexOf v.kind} {showInts v.v}"
+  | ["osv", hv, evs] =>
+    match osvEvents evs with
+    | none => "bad-op"
+    | some evs =>
+      let vers := (OsvRange.run (hv == "1") {} evs).vers
+      let cells := vers.filterMap OsvRange.finish
+      osvShow cells (vers.length - cells.length)
+  | ["osvhit", hv, evs, v] =>
+    match osvEvents evs, str v with
+    | some evs, some v => match Semver.parse v with
+      | none => "verr"
+      | some sv => toString (OsvRange.covers (OsvRange.ranges (hv == "1") evs) (Semver.project sv))
+    | _, _ => "bad-op"
   | ["rhcshape", s] =>
     match str s with
     | none => "bad-op"
